@@ -877,7 +877,9 @@ class ContentElement(TTMLElement):
 
             self.seq_end = child_element.desired_end
 
-            self.implicit_end = None if child_element.desired_end is None else child_element.desired_end + self.desired_begin
+            if self.implicit_end is not None:
+              # br, region and set elements keep their indefinite duration in parallel time containers
+              self.implicit_end = None if child_element.desired_end is None else child_element.desired_end + self.desired_begin
 
           else:
 
